@@ -10,6 +10,8 @@ package main
 //	httpStatusRejects / grpcStatusRejects cfg got : Bool     the status_code comparison of both assertions
 //	grpcAssertSteps                      the order of the checks of the gRPC assertion (status, empty payload, nil message, contains)
 //	httpAssertSteps                      the order of the checks of the http assertion
+//	httpBodyReadCond p s b : Bool, httpBodyReadUnknownAtoms  the condition under which the http assertion reads the body
+//	                                     (boolean function of `len(a.Body) > 0`, `a.Size != nil`, `body != nil`)
 //	checkHTTP2Conds, notHTTP2PanicMsg, nextProtoTLS, panicOnHTTP1Do                panicOnHTTP1Client / checkHTTP2
 //	doErrPanics a b c : Bool, doErrUnknownAtoms  the condition of the panicking `if` of the error branch of Do as a
 //	                                     boolean function of its atoms (errors.As / Op == "remote error" / text of alert 120)
@@ -348,12 +350,58 @@ func respGuardExtra(t *tr) string {
 		var steps []string
 		var sizeSw *ast.SwitchStmt
 		statusCond := ""
+		// the condition under which the response body is read into `b` (the top-level `if` whose block calls
+		// `io.ReadAll(body)`): regenerated as a boolean FUNCTION of its atoms (`httpBodyReadCond`), so that another
+		// spelling / order of the same condition is harmless and a changed one is not; in the step list it appears as
+		// BODYREAD-COND.
+		var readCond ast.Expr
+		readCount := 0
+		ast.Inspect(ap.Body, func(n ast.Node) bool {
+			if ce, ok := n.(*ast.CallExpr); ok && oneLine(nodeString(p, ce)) == "io.ReadAll(body)" {
+				readCount++
+			}
+			return true
+		})
+		for _, s := range ap.Body.List {
+			if x, ok := s.(*ast.IfStmt); ok && x.Init == nil && x.Else == nil && readCond == nil {
+				reads := false
+				ast.Inspect(x.Body, func(n ast.Node) bool {
+					if as, ok := n.(*ast.AssignStmt); ok && strings.HasPrefix(oneLine(nodeString(p, as)), "b, err = io.ReadAll(body)") {
+						reads = true
+					}
+					return true
+				})
+				if reads {
+					readCond = x.Cond
+				}
+			}
+		}
+		readCondText := ""
+		if readCond == nil || readCount != 1 {
+			gsFail(t, p, ap, "assert/response: expected exactly one top-level `if … { b, err = io.ReadAll(body) … }`")
+		} else {
+			readCondText = oneLine(nodeString(p, readCond))
+			var unknown []string
+			lean := respguardBoolCond(p, readCond, map[string]string{
+				`len(a.Body) > 0`:  "hasPatterns",
+				`len(a.Body) != 0`: "hasPatterns",
+				`a.Size != nil`:    "hasSize",
+				`body != nil`:      "bodyPresent",
+			}, &unknown)
+			sort.Strings(unknown)
+			b.WriteString("/-- regenerated from the condition of the `if` of `AssertResponse.Process` (http) whose block reads the response body\ninto `b` (`" + readCondText + "`): its value as a function of its atoms `len(a.Body) > 0`, `a.Size != nil`, `body != nil`.\nOutside that block `b` stays nil (`len(b) = 0`). -/\ndef httpBodyReadCond (hasPatterns hasSize bodyPresent : Bool) : Bool :=\n  " + lean + "\n\n")
+			b.WriteString("/-- atoms of that condition the translator does not know (each is read as `false`) -/\ndef httpBodyReadUnknownAtoms : List String := " + leanStrList(unknown) + "\n\n")
+		}
 		for _, s := range ap.Body.List {
 			switch x := s.(type) {
 			case *ast.RangeStmt:
 				steps = append(steps, "range "+oneLine(nodeString(p, x.X))+": "+rgFirstIfCond(p, x.Body))
 			case *ast.IfStmt:
 				c := oneLine(nodeString(p, x.Cond))
+				if readCondText != "" && x.Cond == readCond {
+					steps = append(steps, "if BODYREAD-COND { "+strings.Join(respguardCanonStmts(p, x.Body.List), " ")+" }")
+					continue
+				}
 				steps = append(steps, "if "+c)
 				if strings.Contains(c, "StatusCode") {
 					statusCond = c
